@@ -97,6 +97,11 @@ def random_config(rng, allow_tblname_finding=False):
             if rng.random() < 0.2:
                 colspec['server_default'] = 'x'
         for colspec in c['columns']:
+            if colspec.get('pk') and rng.random() < 0.2:
+                colspec['unique'] = True
+            if colspec.get('pk') and rng.random() < 0.15:
+                colspec['index'] = True
+        for colspec in c['columns']:
             if colspec.get('pk') and colspec.get('type') == 'int' and not colspec.get('fk') and rng.random() < 0.3 \
                     and sum(1 for x in c['columns'] if x.get('pk')) == 1:
                 colspec['autoincrement'] = True
